@@ -100,15 +100,15 @@ type c05Tx struct {
 }
 
 type c05Querier struct {
-	q         storage.Querier
-	mustSee   map[string]int // "series/t" -> value of transactions finished at open time
-	mustNot   map[string]bool
+	q       storage.Querier
+	mustSee map[string]int // "series/t" -> value of transactions finished at open time
+	mustNot map[string]bool
 	// behindOpen: keys of mustSee samples that were committed to their series after a sample
 	// of a transaction still unfinished when the querier was opened (known finding)
 	behindOpen map[string]bool
-	openedAt  int
-	midCommit bool
-	drained   bool
+	openedAt   int
+	midCommit  bool
+	drained    bool
 }
 
 func c05Labels(s int) labels.Labels { return labels.FromStrings("__name__", "m", "s", strconv.Itoa(s)) }
@@ -123,6 +123,7 @@ func runC05(c c05Case, rec *ev.Rec) (err error) {
 	o.SamplesPerChunk = c.SamplesPerChunk
 	o.IsolationDisabled = false
 	o.HeadChunksWriteQueueSize = 0
+	o.BlockReloadInterval = 24 * time.Hour // no background reloads while the harness owns the schedule
 	db, e := tsdb.Open(dir, promslog.NewNopLogger(), nil, o, nil)
 	if e != nil {
 		return ev.Failf("open: %v", e)
